@@ -42,7 +42,7 @@ from ..common import Result, Violation, import_gscrib, pmap, digest
 import_gscrib()
 from gscrib.heightmaps import RasterHeightMap, SparseHeightMap, FlatHeightMap   # noqa: E402
 
-SCALES = (1.0, 2.5)
+SCALES = (2.5, 1.0)       # a scale other than 1 first, then back to 1: what an earlier set_scale did must not linger
 TOLS_BINARY = (0.378,)     # pixel centres of a binary image are 0 or scale (>= 1): every tolerance in (0, 1) filters identically
 TOLS_FAMILY = (0.05, 0.378, 1.0)
 GEOM_EPS = 1e-9
@@ -388,7 +388,8 @@ def check_raster(col, h, w, bits, rows, scales, tols, lines, queries, want_obs=F
         for line in lines:
             walk = None
             last_line = line
-            for tol in (0.0,) + tuple(tols):
+            extra, exact_keep = [], None
+            for tol in itertools.chain((0.0,), tuple(tols), extra):
                 col.count("path_calls")
                 m.set_tolerance(tol)
                 poke_invalid(m, tol=tol)
@@ -415,9 +416,22 @@ def check_raster(col, h, w, bits, rows, scales, tols, lines, queries, want_obs=F
                     walk = dedupe(pts) if not problems else None
                     if walk:
                         col.count("unfiltered_samples", len(walk))
+                        # one more tolerance taken from the path the map itself returned: exactly the height difference between
+                        # its first sample and the first later sample that is not level with it (that sample differs from the
+                        # last kept one by exactly the tolerance, which is not "less than the tolerance": it has to be kept)
+                        first_up = next((q for q in pts[1:] if q[2] != pts[0][2] and not same_xy(q, pts[0])), None)
+                        if first_up is not None and (len(tols) > 1 or want_obs):
+                            step = abs(first_up[2] - pts[0][2])
+                            if step not in tols:
+                                extra.append(step)
+                            exact_keep = (step, first_up)
                     continue
                 if walk is None or problems:
                     continue                                         # the clause violated above is reported; no reference walk to compare with
+                if exact_keep is not None and tol == exact_keep[0] and not any(same_xy(q, exact_keep[1]) for q in pts):
+                    col.violation("raster:dropped-sample-differs-by-exactly-the-tolerance",
+                                  f"{bits}-bit {h}x{w} image, scale {scale}, line {list(line)}: with the tolerance set to {tol!r} (the height difference the map itself "
+                                  f"reports between its first sample {pts[0] if pts else None} and {exact_keep[1]}) that sample was dropped", rp(scale, tol, line=list(line)))
                 status, msg, nd = check_drop_rule(walk, pts, tol, depth_of)
                 col.count("paths_drop_rule_checked")
                 col.count("dropped_samples_checked", nd)
